@@ -5,7 +5,7 @@ extern "C" {
 #include <mtbb/task_group.h>
 #include <mtbb/parallel_for.h>
 
-enum { FM_TG, FM_PF2, FM_PF3, FM_PFG, FM_TGF };
+enum { FM_TG, FM_PF2, FM_PF3, FM_PFG, FM_TGF, FM_RANGE };
 typedef struct { int fam, a, b, c, d, W, K; } prog_t;
 #define MAXP 3000
 static prog_t P[2][MAXP]; static int NP[2];
@@ -17,6 +17,8 @@ static void build(void) {
     for (int n = 0; n <= (tier ? 12 : 10); n++) { int K = n <= 2 ? 2 : (n <= 4 ? 1 : 0); if (tier && n <= 3) K = 3; add(tier, FM_TG, n, n > 8 ? 1 : n % 3, 0, 0, W, W == 1 ? (K ? 1 : 0) : K); }
     /* task_group with closures of 48 bytes: the 256-byte chunks of the group's task memory overflow after a handful of run() calls, more than once */
     for (int n = 4; n <= (tier ? 18 : 14); n++) add(tier, FM_TGF, n, n % 4, 0, 0, W, (n <= 7 && W == 2) ? 1 : 0);
+    /* range-based parallel_for over a Range class with 32-bit unsigned / int indices: small ranges, and ranges high in the index space (begin + end does not fit) */
+    for (int base = 0; base < 4; base++) for (int len = 0; len <= (tier ? 9 : 7); len++) for (int g = 1; g <= 3; g += 2) add(tier, FM_RANGE, base, len, g, 0, W, (len <= 3 && W == 2) ? 1 : 0);
     /* parallel_for(first, last): all first, last in -2..5 */
     for (int f = -2; f <= (tier ? 5 : 4); f++) for (int l = -2; l <= (tier ? 5 : 4); l++) { int len = l - f; int K = len <= 2 ? (tier ? 2 : 1) : (len <= 3 ? 1 : 0); add(tier, FM_PF2, f, l, 1, 0, W, W == 1 ? 0 : K); }
     /* parallel_for(first, last, step) */
@@ -31,6 +33,7 @@ static void describe(int tier, int prog, char * b, size_t n) {
   build(); prog_t * p = &P[tier][prog];
   switch (p->fam) {
   case FM_TG: snprintf(b, n, "task_group: %d run() calls, wait, %d more, wait", p->a, p->b); break;
+  case FM_RANGE: { static const char * const bs[] = { "unsigned 0", "unsigned 2147483640", "unsigned 4294967280", "int 2147483630" }; snprintf(b, n, "parallel_for(Range [%s, +%d), grain %d, body)", bs[p->a], p->b, p->c); break; }
   case FM_TGF: snprintf(b, n, "task_group: %d run() calls with 48-byte closures, wait, %d more, wait", p->a, p->b); break;
   case FM_PF2: snprintf(b, n, "parallel_for(first=%d, last=%d)", p->a, p->b); break;
   case FM_PF3: snprintf(b, n, "parallel_for(first=%d, last=%d, step=%d)", p->a, p->b, p->c); break;
@@ -42,6 +45,23 @@ static volatile int hit[64];   /* index i is recorded at hit[i + 8] */
 static volatile int tasks_done;
 struct IndexBody { void operator()(int i) const { if (i < -8 || i >= 56) mv_fail("body called with index %d far outside the range", i); hit[i + 8]++; } };
 struct RangeBody { void operator()(int a, int b) const { for (int i = a; i < b; i++) { if (i < -8 || i >= 56) mv_fail("body called with sub-range [%d,%d) far outside the range", a, b); hit[i + 8]++; } } };
+/* a Range in the sense of parallel_for(const Range &, Body &): begin/end/grainsize, empty, is_divisible, three-argument constructor */
+template <typename T> struct MyRange {
+  T b_, e_, g_;
+  MyRange(T b, T e, T g) : b_(b), e_(e), g_(g) {}
+  T begin() const { return b_; } T end() const { return e_; } T grainsize() const { return g_; }
+  bool empty() const { return !(b_ < e_); } bool is_divisible() const { return g_ < (T)(e_ - b_); }
+};
+static volatile int rhit[32]; static volatile int rbad;
+template <typename T> struct RBody { T base; int len; void operator()(const MyRange<T> & r) const {
+  if (r.begin() < base || r.end() > (T)(base + (T)len) || r.end() < r.begin()) { rbad++; return; }
+  for (T i = r.begin(); i < r.end(); i++) rhit[(int)(i - base)]++; } };
+template <typename T> static void run_range(T base, int len, int grain) {
+  MyRange<T> r(base, (T)(base + (T)len), (T)grain); RBody<T> body; body.base = base; body.len = len;
+  mtbb::parallel_for(r, body);
+  if (rbad) mv_fail("the body was handed a sub-range outside [base, base+%d) %d time(s)", len, rbad);
+  for (int i = 0; i < 32; i++) if (rhit[i] != (i < len ? 1 : 0)) mv_fail("index base+%d was visited %d time(s), the sequential loop visits it %d time(s)", i, rhit[i], i < len ? 1 : 0);
+}
 struct FatTask { int id; unsigned char pad[44]; void operator()() const { for (int k = 0; k < 44; k++) if (pad[k] != (unsigned char)(id * 3 + k)) mv_fail("task %d: its closure was overwritten (byte %d) before it ran: two tasks share memory", id, k); if (id & 1) myth_yield(); hit[id]++; } };
 struct Task { int id; void operator()() const { if (id & 1) myth_yield(); tasks_done += 1 << 0; hit[id]++; } };
 
@@ -65,6 +85,10 @@ static void run(int tier, int prog) {
     for (int i = 0; i < cur->b; i++) if (hit[20 + i] != 1) mv_fail("second batch: task %d had run %d time(s) when wait() returned", i, hit[20 + i]);
     for (int i = 0; i < cur->a; i++) if (hit[i] != 1) mv_fail("task %d ran again after the first wait (count %d)", i, hit[i]);
     break; }
+  case FM_RANGE:
+    if (cur->a == 0) run_range<unsigned>(0u, cur->b, cur->c); else if (cur->a == 1) run_range<unsigned>(2147483640u, cur->b, cur->c);
+    else if (cur->a == 2) run_range<unsigned>(4294967280u, cur->b, cur->c); else run_range<int>(2147483630, cur->b, cur->c);
+    break;
   case FM_TGF: {
     mtbb::task_group tg;
     for (int i = 0; i < cur->a; i++) { FatTask t; t.id = i; for (int k = 0; k < 44; k++) t.pad[k] = (unsigned char)(i * 3 + k); tg.run(t); }
